@@ -4,10 +4,9 @@ package checks
 // with one switch per known deviation ("quirk") of mvdan/sh. The model is NOT
 // the oracle (real bash is); it is used only to classify a divergence: a
 // failing case gets a class only if (a) the model without quirks reproduces
-// bash's bytes and status for that case, (b) the model with all quirks
-// reproduces the interpreter's, and the class is the first quirk of a minimal
-// quirk set that still reproduces the interpreter. Everything else stays an
-// unclassified VIOLATION.
+// bash's bytes and status for that case, (b) the model with some set of
+// quirks reproduces the interpreter's; the class is the first quirk of the
+// smallest such set. Everything else stays an unclassified VIOLATION.
 
 import (
 	"fmt"
@@ -433,7 +432,8 @@ func c24RefPrintf(argv []string, q c24Q) c24Out {
 			}
 			return c24Out{Out: m.out, Status: 1}
 		case 2:
-			return c24Out{Unsupported: true}
+			// Out is what was written before the directive was met
+			return c24Out{Unsupported: true, Out: m.out}
 		case 3:
 			return c24Out{Out: m.out, Status: 0}
 		}
